@@ -46,4 +46,29 @@ TEXTS["C14"] = {
     "note": TB + " EVM/XVM balance effects (wasm set_balance host call) and the admin-registration grant are outside the exec op language.",
     "technique": "Lean 4 arithmetic theorems over the executable fee/transfer model + differential correspondence + balance-sum monitor",
 }
+TEXTS["C13"] = {
+    "text": "Proved on the model of SimpleLedger/SimpleAccount/AccountCache for all ledger states (any dirty set, origin memo, cache and database content): read-your-write for journaled writes, "
+            "deletes and un-journaled adds, independence of other keys (C13_read_after_set, C13_read_after_add, C13_set_other_key_dirty). The end-to-end refinement to a plain map across flush / "
+            "commit / eviction / reopen / rollback is decided by model correspondence (every getter, QueryByPrefix and the state roots bit for bit) plus a plain-map reference monitor on the real ledger. "
+            "Two defects found here were repaired by fix: commits (QueryByPrefix overlap; AddState not loading the committed value); known findings: empty values are not persisted, Query ignores the cache before commit.",
+    "note": TB + " LevelDB, golang-lru (eviction = explicit op) are modelled; Keccak-256 is a parameter supplied by a table checked by the harness.",
+    "technique": "Lean 4 theorems over an executable ledger model + differential correspondence (bit-exact roots) + plain-map reference monitor",
+}
+TEXTS["C12"] = {
+    "text": "Proved on the model of Commit/removeJournalsBeforeBlock/RollbackState: refusals above the head and below the retained window (C12_refuse_higher, C12_refuse_too_much) return no ledger (nothing modified), "
+            "rollback to the head is the identity (C12_noop_at_head), and committing consecutive heights keeps exactly the last 10 journals plus the genesis target while height 1 is retained "
+            "(commit_range, C12_commit_keeps_window). That a rollback restores the abstract state of the target height is decided by correspondence (model = code on rollback histories incl. pruning) and by the "
+            "reference monitor that compares the full dump after every rollback with the dump recorded at commit time. One defect (AddState journaled a wrong previous value) was repaired by a fix: commit.",
+    "note": TB,
+    "technique": "Lean 4 theorems over the executable journal-window model + differential correspondence + recorded-dump monitor",
+}
+TEXTS["C10"] = {
+    "text": "State root: proved that sorting makes account-map and dirty-key iteration order unreachable from the root pre-image (C10_sortAccts_perm, C10_sortKeys_perm, C10_account_preimage_perm via core's "
+            "pairwise_mergeSort/Perm.eq_of_pairwise), that the root is the hash of a pre-image containing the previous root, and sensitivity as a collision reduction (C10_sensitivity_reduction). "
+            "Merkle roots: one tree level is injective on equal-length lists or exhibits an explicit collision of the node hash (C10_levelUp_sensitive); the odd-leaf duplication of the library is stated as a theorem. "
+            "The model's roots (own SHA-256 in Lean) equal the code's bit for bit on every generated history; metamorphic monitors (same change set in another order/through reads, evictions, reopen => same root; "
+            "single-field perturbation => different root) run on the real ledger and the real calcMerkleRoot. Known finding: a no-op account write changes the root.",
+    "note": TB + " SHA-256 collision resistance is not assumed (reductions); receipt/tx hashing (protobuf) is not modelled.",
+    "technique": "Lean 4 theorems (permutation invariance, collision reductions) + bit-exact differential correspondence + metamorphic monitors",
+}
 NOT_YET = {}
